@@ -836,7 +836,8 @@ impl Scenario for ReplCell {
 
     fn summary(&self, x: &mut ReplExec) -> Summary {
         let nontrivial = match self.property {
-            "C02" | "C10" | "C11" | "C12" => x.mut_msgs_delivered > 0,
+            "C10" | "C11" | "C12" => x.mut_msgs_delivered > 0 && !x.sim.acks.format_unknown,
+            "C02" => x.mut_msgs_delivered > 0,
             "C03" | "C16" => x.structural_ops > 0,
             _ => x.applied_ops > 0,
         };
